@@ -43,6 +43,10 @@ def gen_cases(tier, seed):
     cs = []
     for name, args in TM.REAL_CASES:
         cs.append(Case(name, "poolreal", args, "real-sockets", True))
+    # the first request on a fresh session fails at the STREAM level (the target refuses: SYNACK with an error); the
+    # session is healthy, so the next, non-overlapping request must be served over it: one TLS connection in all
+    # (seed C13-4). Implementation + oracle only (the pool model has no failing opens).
+    cs.append(Case("real-refused-first", "poolreal", ["4000", "8000", "1", "100:q", "1200:r"], "real-refused-first", True, model=False))
     n = 120 if tier == "quick" else 2500
     for i in range(n):
         a = TM.gen_client_history(r, long=(tier != "quick" and i % 3 == 0))
@@ -70,6 +74,18 @@ def is_known(f):
 def oracle(c, ir):
     if ir.startswith("PANIC") or ir.startswith("UNKNOWN-DRIVER"):
         return "[malformed] " + ir[:200]
+    if c.kind == "real-refused-first":
+        import re
+        toks = ir.split()
+        m = re.search(r"dials=(\d+)", ir)
+        if not m or not toks or not toks[0].startswith("refused/"):
+            return "[malformed] refused-first scenario: %s" % ir[:200]
+        if len(toks) < 3 or toks[1].split("/")[0][:1] not in "nu":
+            return "[request_failed] the request after a refused one failed: %s" % ir[:200]
+        if m.group(1) != "1":
+            return ("[redial_after_refusal] the first request's target refused the connection (a stream-level failure on a healthy session); the next, "
+                    "non-overlapping request dialled a new TLS connection instead of using that session: %s connections in all" % m.group(1))
+        return None
     fs = [f for f in TM.analyse_client(c, ir) if f.kind in OWN]
     new = [f for f in fs if not is_known(f)]
     if new:
